@@ -6,7 +6,8 @@ import Gama.Proto
 import Gama.Model.XmlEsc
 import Gama.Model.CovBand
 import Gama.Model.ReaderPoint
-open Gama Gama.Proto Gama.XmlEsc Gama.CovBand Gama.ReaderPoint
+import Gama.Model.XmlRecords
+open Gama Gama.Proto Gama.XmlEsc Gama.CovBand Gama.ReaderPoint Gama.XmlRec
 
 def unhexBytes (s : String) : Option (List UInt8) :=
   if s = "-" then some [] else
@@ -74,6 +75,101 @@ def b01 (b : Bool) : String := if b then "1" else "0"
 def showPoint (p : PointRec String) : String :=
   s!"pt {p.id} {b01 p.hxy} {b01 p.hz} {b01 p.cxy} {b01 p.cz} {p.x} {p.y} {p.z} {p.indx} {p.indy} {p.indz}"
 
+/-! ### records: writer on the quantities dumped by `wnet`, reader on the leaves of a real document -/
+
+/-- hex ↦ the string (UTF-8); `none` if not UTF-8 -/
+def unhexStr (h : String) : Option String := do
+  let b ← unhexBytes h
+  String.fromUTF8? (ByteArray.mk b.toArray)
+
+def hexStr (s : String) : String := hexBytes s.toUTF8.toList
+
+def fnum : Num Float := ⟨showFloat, float?⟩
+/-- reader side: numbers stay the printed tokens (compared as numbers by the plugin) -/
+def snum : Num String := ⟨id, some⟩
+
+def sectOf : String → Option Sect
+  | "fixed" => some .fixed | "approximate" => some .approximate | "adjusted" => some .adjusted | _ => none
+
+def kindOf (t : String) : Option OKind := OKind.all.find? (fun k => k.tag == t)
+
+def showLeaves (numeric : String → Bool) (ls : List Leaf) : String :=
+  String.join (ls.map (fun l => " " ++ l.tag ++ " " ++ (if numeric l.tag then l.data else hexStr l.data)))
+
+def isIdTag (t : String) : Bool := t == "id" || t == "from" || t == "to" || t == "left" || t == "right"
+
+/-- 14 tokens per point: hexid axy az ix iy iz cxy cz x y z X(ix) X(iy) X(iz) -/
+def parseLPoints : List String → Option (List (LPoint Float × List (Nat × Float)))
+  | [] => some []
+  | h :: a :: b :: ix :: iy :: iz :: c :: d :: x :: y :: z :: cx :: cy :: cz :: rest => do
+    let id ← unhexStr h
+    let ix ← ix.toNat?; let iy ← iy.toNat?; let iz ← iz.toNat?
+    let x ← float? x; let y ← float? y; let z ← float? z
+    let cx ← float? cx; let cy ← float? cy; let cz ← float? cz
+    let r ← parseLPoints rest
+    pure ((⟨id, a = "1", b = "1", ix, iy, iz, c = "1", d = "1", x, y, z⟩, [(ix, cx), (iy, cy), (iz, cz)]) :: r)
+  | _ => none
+
+def mkX (tbl : List (Nat × Float)) (i : Nat) : Float := (tbl.lookup i).getD 0
+
+/-- 4 tokens per orientation: hexid i orientation X(i) -/
+def parseLOris : List String → Option (List (LOri Float × (Nat × Float)))
+  | [] => some []
+  | h :: i :: o :: xi :: rest => do
+    let id ← unhexStr h
+    let i ← i.toNat?
+    let o ← float? o
+    let xi ← float? xi
+    let r ← parseLOris rest
+    pure ((⟨id, i, o⟩, (i, xi)) :: r)
+  | _ => none
+
+/-- 13 tokens per observation: kind from to bs fs value v stdev qrr f stud weight diag -/
+def parseLObs : List String → Option (List (LObs Float))
+  | [] => some []
+  | k :: a :: b :: c :: d :: val :: v :: sd :: qrr :: f :: st :: w :: dg :: rest => do
+    let k ← kindOf k
+    let a ← unhexStr a; let b ← unhexStr b; let c ← unhexStr c; let d ← unhexStr d
+    let val ← float? val; let v ← float? v; let sd ← float? sd; let qrr ← float? qrr
+    let f ← float? f; let st ← float? st; let w ← float? w
+    let r ← parseLObs rest
+    pure (⟨k, a, b, c, d, val, v, sd, qrr, f, st, w, dg = "1"⟩ :: r)
+  | _ => none
+
+/-- leaves of records: `R [tag]` starts a record, `L tag hexdata` adds a leaf -/
+def parseRecs : List String → Option (String × List Leaf) → List (String × List Leaf) → Option (List (String × List Leaf))
+  | [], cur, acc => some ((match cur with | some c => (c.1, c.2.reverse) :: acc | none => acc).reverse)
+  | "R" :: t :: r, cur, acc => parseRecs r (some (t, [])) (match cur with | some c => (c.1, c.2.reverse) :: acc | none => acc)
+  | "L" :: t :: h :: r, some c, acc =>
+    match unhexStr h with
+    | some d => parseRecs r (some (c.1, ⟨t, d⟩ :: c.2)) acc
+    | none => none
+  | _, _, _ => none
+
+def showRErr : RErr → String
+  | .unknownTag => "unknownTag" | .illegalContext => "illegalContext" | .floatSyntax => "floatSyntax"
+  | .xWithoutY => "xWithoutY" | .conXWithoutY => "conXWithoutY" | .missingApproxAdj => "missingApproxAdj"
+  | .obsAttrMissing => "obsAttrMissing"
+
+def showPointS (p : PointRec String) : String :=
+  s!"pt {hexStr p.id} {b01 p.hxy} {b01 p.hz} {b01 p.cxy} {b01 p.cz} {p.x} {p.y} {p.z} {p.indx} {p.indy} {p.indz}"
+
+def showObsRec (o : ObsRec String) : String :=
+  s!"obs {hexStr o.xmlTag} {hexStr o.from_} {hexStr o.to} {hexStr o.left} {hexStr o.right} {o.obs} {o.adj} {o.stdev} {o.qrr} {o.f} {o.stdResidual} {hexStr o.errObs} {hexStr o.errAdj}"
+
+def readAllObs : List (String × List Leaf) → Except RErr (List (ObsRec String))
+  | [] => .ok []
+  | (t, ls) :: r => match readObs snum "0" t ls with
+    | .ok o => (readAllObs r).map (o :: ·)
+    | .error e => .error e
+
+/-- `ind[]` positions ↦ `m0²·qxx(ind[i], ind[j])`, from the upper triangle of the n×n matrix of cofactors -/
+def covOf (n : Nat) (q : Array Float) (ind : Array Nat) (m2 : Float) (i j : Nat) : Float :=
+  let a := ind.getD (i - 1) 0
+  let b := ind.getD (j - 1) 0
+  let (a, b) := if a ≤ b then (a, b) else (b, a)
+  m2 * q.getD ((a - 1) * n - (a - 1) * (a - 2) / 2 + (b - a)) 0
+
 def step (_ : Unit) (line : String) : Unit × String :=
   match tokens line with
   | ["esc", h] =>
@@ -107,6 +203,56 @@ def step (_ : Unit) (line : String) : Unit × String :=
       | .ok st => ((), "\n".intercalate (st.out.map showPoint ++ ["end"]))
       | .error .xWithoutY => ((), "throw xWithoutY")
       | .error .conXWithoutY => ((), "throw conXWithoutY")
+    | none => ((), "bad-op")
+  | "wsec" :: sect :: ys :: rest =>
+    match sectOf sect, float? ys, parseLPoints rest with
+    | some sc, some ys, some pts =>
+      let f : Frame Float := ⟨ys, mkX (pts.flatMap (·.2)), 0, 1, 0⟩
+      ((), "\n".intercalate ((writeSection fnum sc f (pts.map (·.1))).map (fun ls => "point" ++ showLeaves (· != "id") ls) ++ ["end"]))
+    | _, _, _ => ((), "bad-op")
+  | "wori" :: ys :: r2g :: rest =>
+    match float? ys, float? r2g, parseLOris rest with
+    | some ys, some r2g, some os =>
+      let f : Frame Float := ⟨ys, mkX (os.map (·.2)), r2g, 1, 0⟩
+      ((), "\n".intercalate ((os.map (fun o => "ori" ++ showLeaves (· != "id") (writeOri fnum f o.1))) ++ ["end"]))
+    | _, _, _ => ((), "bad-op")
+  | "wobs" :: ys :: r2g :: sc :: kki :: rest =>
+    match float? ys, float? r2g, float? sc, float? kki, parseLObs rest with
+    | some ys, some r2g, some sc, some kki, some os =>
+      let f : Frame Float := ⟨ys, fun _ => 0, r2g, sc, kki⟩
+      ((), "\n".intercalate ((os.map (fun o => "obs " ++ o.kind.tag ++ showLeaves (fun t => !isIdTag t) (writeObs fnum f o))) ++ ["end"]))
+    | _, _, _, _, _ => ((), "bad-op")
+  | "wcov" :: m0 :: b :: n :: rest =>
+    match float? m0, b.toInt?, n.toNat?, parsePts rest with
+    | some m0, some band, some n, some (pts, r) =>
+      let (ro, rq) := r.span (· != "|")
+      match parseOris ro, (rq.drop 1).mapM float? with
+      | some oris, some q =>
+        let ind := (indList pts oris).toArray
+        let w := write (covOf n q.toArray ind (m0 * m0)) ind.size band
+        ((), s!"hdr {w.dim} {w.band}\nflt" ++ String.join (w.flt.map (fun x => " " ++ showFloat x)))
+      | _, _ => ((), "bad-op")
+    | _, _, _, _ => ((), "bad-op")
+  | "rsec" :: sect :: rest =>
+    match parseRecs rest none [] with
+    | some recs =>
+      match readPoints snum "0" (sectionStart "0" (sect = "adjusted")) (recs.map (·.2)) with
+      | .ok st => ((), "\n".intercalate (st.out.map showPointS ++ ["end"]))
+      | .error e => ((), "throw " ++ showRErr e)
+    | none => ((), "bad-op")
+  | "roris" :: k0 :: rest =>
+    match k0.toNat?, parseRecs rest none [] with
+    | some k0, some recs =>
+      match readOris snum ⟨⟨"", "0", "0", 0⟩, "", k0, []⟩ (recs.map (·.2)) with
+      | .ok st => ((), "\n".intercalate (st.out.map (fun o => s!"orientation {hexStr o.id} {o.approx} {o.adj} {o.index}") ++ ["end"]))
+      | .error e => ((), "throw " ++ showRErr e)
+    | _, _ => ((), "bad-op")
+  | "robs" :: rest =>
+    match parseRecs rest none [] with
+    | some recs =>
+      match readAllObs recs with
+      | .ok os => ((), "\n".intercalate (os.map showObsRec ++ ["end"]))
+      | .error e => ((), "throw " ++ showRErr e)
     | none => ((), "bad-op")
   | _ => ((), "bad-op")
 
